@@ -164,6 +164,7 @@ pub fn run_case(case: &Case) -> (Vec<(String, String)>, Info) {
         heartbeat: 100,
         social_stake: 0,
         loading_completed: true,
+        prune: 8,
     };
     let mut node = Node::new(ncfg, 0);
     let issuance: Vec<(u8, u64)> = vec![
@@ -238,7 +239,7 @@ pub fn run_case(case: &Case) -> (Vec<(String, String)>, Info) {
             Op::AddInvalid { edit } => {
                 opname = "add_invalid";
                 let (spent, expired) = crate::chain::spent_and_expired(&w.node, tip_id + 1);
-                let ectx = EditCtx { node: &w.node, attacker: 3, victim: 1, for_block_id: tip_id + 1, ts: tipb.timestamp + w.ts_salt, spent: &spent, expired: &expired };
+                let ectx = EditCtx { node: &w.node, attacker: 3, victim: 1, for_block_id: tip_id + 1, ts: tipb.timestamp + w.ts_salt, spent: &spent, expired: &expired, offchain: &[] };
                 let e = TX_EDITS[*edit as usize % TX_EDITS.len()];
                 if let Some(tx) = edited_tx(e, &ectx) {
                     let sig = tx.signature;
